@@ -77,6 +77,12 @@ def corruptions(inst, rng):
         kj = json.dumps(kw)
         out += [("kw_trailing_comma", kj[:-1] + ",}", False), ("kw_single_quotes", kj.replace('"', "'"), False), ("kw_nan", kj[:-1] + ', "zz": NaN,}', False),
                 ("kw_fenced_comma", "```json\n%s,}\n```" % kj[:-1], False)]
+    # two schema-valid candidates of different length in one text (a draft and a corrected answer): whichever the validator picks, both folds must pick the same
+    d2 = {k: (v + " extended version" if isinstance(v, str) else (v * 1000 + 7 if isinstance(v, int) and not isinstance(v, bool) else v)) for k, v in d.items()}
+    if d2 != d:
+        j2 = json.dumps(d2)
+        out += [("two_valid_short_first", "Draft: %s\nCorrected: %s" % (js, j2), False), ("two_valid_long_first", "First try %s and then %s" % (j2, js), False),
+                ("two_valid_fenced", "```json\n%s\n```\nrevised:\n```json\n%s\n```" % (js, j2), False)]
     # type swaps: ints as strings (lenient coercion keeps the value), strings as numbers
     sw = dict(d)
     changed = False
@@ -182,7 +188,7 @@ def batch(args):
     for (ci, order) in todo:
         (schema, inst, cname, raw, vp), (single, ref, oracle) = cases[ci], prep[ci]
         if True:
-            o = {"order": order, "raised": False, "strict_oracle": oracle, "value_preserving": vp, "corruption": cname}
+            o = {"order": order, "raised": False, "strict_oracle": oracle, "value_preserving": vp, "corruption": cname, "healed": False}
             try:
                 plain = shared.fold(raw, schema, strategies=[FS[s] for s in order])
                 enh = shared.fold_enhanced(raw, schema, strategies=[FS[s] for s in order])
@@ -220,6 +226,56 @@ def batch(args):
             "raws": len(cases), "sample": {k: recs[len(recs) // 3][k] for k in ("order", "single", "o")}}
 
 
+def heal_records():
+    """Folds that come out of ChaperoneLoop.heal (operon_ai/healing/chaperone_loop.py): the loop lowers the fold's confidence with every retry; it must stay in [0, 1]
+    and be 1.0 only for a strict first-try fold.  Retry limits up to 9 and decays up to 0.5."""
+    base.use_repo()
+    import importlib, io, contextlib
+    pyd = importlib.import_module("pydantic")
+    ch = importlib.import_module("operon_ai.organelles.chaperone")
+    cl = importlib.import_module("operon_ai.healing.chaperone_loop")
+    M = pyd.create_model("H", x=(int, ...), note=(str, "n"))
+    good = {"strict": '{"x": 5, "note": "ok"}', "repair": "{'x': 5, 'note': 'ok',}", "extraction": 'Here you go: {"x": 5, "note": "ok"} thanks'}
+    recs = []
+    for decay in (0.1, 0.25, 0.5):
+        for limit in (0, 3, 9):
+            for k in sorted({0, 1, limit // 2, limit}):
+                for how, raw_ok in good.items():
+                    calls = {"n": 0}
+
+                    def gen(prompt, error_context=None, k=k, raw_ok=raw_ok):
+                        calls["n"] += 1
+                        return raw_ok if calls["n"] > k else '{"x": "nope"}'
+                    chap = ch.Chaperone(silent=True)
+                    single = {}
+                    for s in STRATS:
+                        single[s] = "valid" if chap.fold_enhanced(raw_ok, M, strategies=[{x.value: x for x in ch.FoldingStrategy}[s]]).valid else "invalid"
+                    o = {"order": list(STRATS), "raised": False, "strict_oracle": how == "strict", "value_preserving": False, "corruption": "healed-%s" % how, "healed": True}
+                    try:
+                        with contextlib.redirect_stdout(io.StringIO()):
+                            res = cl.ChaperoneLoop(generator=gen, chaperone=chap, schema=M, max_retries=limit, confidence_decay=decay, silent=True).heal("p")
+                        f = res.folded
+                        o["valid"] = bool(res.valid)
+                        conf = (f.confidence if f is not None else 0.0) if res.valid else res.final_confidence
+                        c100 = conf * 100
+                        o["conf"] = int(round(c100)) if abs(c100 - round(c100)) < 1e-6 else (-1 if conf < 0 else (101 if conf > 1 else int(c100)))
+                        su = getattr(f, "strategy_used", None) if f is not None else None
+                        o["strategy"] = su.value if (res.valid and su is not None) else ("strict" if res.valid and how == "strict" else ("none" if not res.valid else how))
+                        o.update(has_struct=res.structure is not None, has_err=not res.valid, is_instance=isinstance(res.structure, M), revalidates=res.valid, equals_json=how == "strict" and res.valid,
+                                 agree=True, no_fabrication=True, matches_truth=True)
+                        if k == 0 and how == "strict" and res.valid and o["conf"] != 100:
+                            o["strict_oracle"] = False        # (first-try strict folds keep full confidence; not required after retries)
+                        if k > 0:
+                            o["strict_oracle"] = False
+                    except Exception as ex:
+                        o.update(raised=True, exc=type(ex).__name__, valid=False, strategy="none", conf=0, has_struct=False, has_err=True, is_instance=False, revalidates=False,
+                                 equals_json=False, agree=False, no_fabrication=True, matches_truth=True)
+                    if not o["valid"]:
+                        single = {s: "invalid" for s in STRATS}     # the loop gave up: judged as an invalid fold
+                    recs.append({"order": list(STRATS), "single": single, "o": o, "schema": "H", "decay": decay, "limit": limit, "valid_at": k})
+    return recs
+
+
 def all_orders():
     out = []
     for n in range(1, 5):
@@ -245,6 +301,12 @@ def run(tier):
                 jobs.append((base.seed() * 100 + 50 + si * 4 + extra, [si], 25, orders[::2], "s%dx%d" % (si, extra), False))
     with cf.ProcessPoolExecutor(max_workers=8) as ex:
         out = list(ex.map(batch, jobs))
+    hr = heal_records()
+    r, pf, dr = flat.judge("Trace_Chaperone", hr, tag="c11.heal")
+    R.add_tlc("Trace_Chaperone (folds returned by the healing loop)", r)
+    out.append({"n": len(hr), "fails": [("%s corruption=%s" % (cn, hr[i - 1]["o"]["corruption"]), dict(hr[i - 1], clause=cn)) for i, cl in pf.items() for cn in cl],
+                "drift": len(dr), "drift_samples": [hr[i - 1] for i in dr[:2]], "distinct": r.get("distinct", 0), "generated": r.get("generated", 0), "nontrivial": len(hr), "raws": 0,
+                "sample": {k: hr[0][k] for k in ("order", "single", "o")}})
     for x in out:
         R.cov["traces_validated_against_impl"] += x["n"]
         R.cov["evaluations"] += x["n"]
